@@ -18,6 +18,8 @@ pub enum AccessKind {
     Store,
     /// `fetch_add`
     FetchAdd,
+    /// `swap`
+    Swap,
 }
 
 /// One atomic access as reported to the observer.
@@ -100,6 +102,15 @@ impl AtomicUsize {
         before(self.addr(), false, AccessKind::FetchAdd, order, val);
         let read = self.0.fetch_add(val, order);
         after(self.addr(), false, AccessKind::FetchAdd, order, read, val);
+        read
+    }
+
+    /// See `std::sync::atomic::AtomicUsize::swap`.
+    #[inline(always)]
+    pub fn swap(&self, val: usize, order: Ordering) -> usize {
+        before(self.addr(), false, AccessKind::Swap, order, val);
+        let read = self.0.swap(val, order);
+        after(self.addr(), false, AccessKind::Swap, order, read, val);
         read
     }
 
